@@ -16,6 +16,7 @@ func init() {
 			"CH-MAP GetFloat kinds; LP-BUILD: a stage is not wrapped between its builder and the pipeline",
 			"label and line regexps with the same text stay different matchers; the engine evaluates every written filter stage",
 			"PV-PURE LabelSet read accessors do not write the label map; groupEntries keeps every entry (no de-duplication), deterministic",
+			"LP-ERRPATH: every stage that flags __error__ (typed label filters, extractors, line_format) returns the unchanged line, kept, on its failing paths",
 		},
 		NotDecided: []string{"strings.Contains(s, \"\") being true (library semantics)", "regexp engine semantics"},
 		Rules: func(r *Run) {
@@ -40,6 +41,7 @@ func init() {
 			ruleLabelSetReadersPure(r)
 			ruleGroupEntries(r)
 			ruleMO(r, 10, "LabelSet", "groupEntries", "Engine).Eval")
+			ruleErrorPathKeepsLine(r, []string{"DurationLabelFilter", "BytesLabelFilter", "NumberLabelFilter", "IPLabelFilter", "JSONExtractor", "LogfmtExtractor", "UnpackExtractor", "LineFormat"}) // a filter that cannot read a value keeps the record (flagged), whatever the comparison
 		},
 	})
 }
